@@ -131,7 +131,8 @@ func validateStubs(ld *Loaded, cfg *Config) (map[string]int, error) {
 		for _, c := range []struct {
 			f    string
 			args []interface{}
-		}{{"%v", []interface{}{42}}, {"%d/%d", []interface{}{-1, 7}}, {"%v", []interface{}{true}}, {"%s!", []interface{}{"x"}}, {"%q", []interface{}{"a\"b"}}, {"%v", []interface{}{nil}}} {
+		}{{"%v", []interface{}{42}}, {"%d/%d", []interface{}{-1, 7}}, {"%v", []interface{}{true}}, {"%s!", []interface{}{"x"}}, {"%q", []interface{}{"a\"b"}}, {"%v", []interface{}{nil}},
+			{"%5s|", []interface{}{"ab"}}, {"%-5s|", []interface{}{"ab"}}, {"%*s|", []interface{}{4, "é世"}}, {"%*s|", []interface{}{-4, "x"}}, {"%1s|", []interface{}{"abc"}}, {"%3d|", []interface{}{7}}, {"%-3v|", []interface{}{true}}, {"%*s", []interface{}{0, ""}}} {
 			var vs []Value
 			for _, a := range c.args {
 				vs = append(vs, in.goToIface(a))
